@@ -238,6 +238,9 @@ def run(tier, seed, replay=None):
         # a device removed and added again under the same name (re-provisioning): the second registration stays managed and connected,
         # whenever the first instance's goroutine winds down (log sink delays 0 / 2 ms shift that moment)
         scripts = (["readd 20 0", "readd 20 2", "readd 10 5"] if thorough else ["readd 5 0", "readd 4 2"]) + scripts
+        # ... and a device re-added WHILE its removal still waits for the reader's CloseConnectionResponse (held back by the scripted
+        # reader: answered late on even rounds, never on odd ones), through every API that can make a name managed
+        scripts = ["readd2 %s %d" % (api, 8 if thorough else 2) for api in ("add", "update", "cmd")] + scripts
         # Stop right after NewLLRPDevice (about to dial): either of the model's two Stop events
         scripts = ["1 Y", "0 Y", "1 y Q", "1 Y U1 Q", "0 y U1"] + scripts
         # what the supervisor model treats as atomic takes time (Driver/SupervisorFlight.v):
@@ -313,7 +316,7 @@ def run(tier, seed, replay=None):
         missing = [i for i in range(len(reqs)) if answers[i] is None]
         rc = 0 if not missing else 1
         lines = [a if a is not None else "!noanswer" for a in answers]
-        orc, oout = vlib.run_oracle("c15", "consts\n" + "".join((s if s.startswith(("start ", "race ", "readd ", "hold ", "pend ")) else "run " + s) + "\n" for s in batch))
+        orc, oout = vlib.run_oracle("c15", "consts\n" + "".join((s if s.startswith(("start ", "race ", "readd ", "readd2 ", "hold ", "pend ")) else "run " + s) + "\n" for s in batch))
         return rc, lines, glog_all, [l for l in oout.split("\n")]
 
     rc, lines, glog, olines = execute(scripts)
@@ -353,6 +356,20 @@ def run(tier, seed, replay=None):
                 d.append("connections of one name: Go (at a time, after removal, left open) %s, registry model %s" % (gm.group(1, 2, 3), mm.group(1, 2, 3)))
             if gm.group(4) != gm.group(5):
                 d.append("commands answered %s of %s" % (gm.group(4), gm.group(5)))
+            return d
+        if s.startswith("readd2 "):
+            gm = re.match(r"managed=(\d+)/(\d+) connected=(\d+)/(\d+) maxconc=(\d+) inside=(\d+)$", g)
+            mm = re.match(r"managed=([01]) live=(\d+)$", o)
+            if not gm or not mm:
+                return ["irregular: %s / %s" % (g[:80], o[:80])]
+            reps = int(gm.group(2))
+            d = []
+            if int(gm.group(1)) != reps * int(mm.group(1)):
+                d.append("managed after a re-add during the removal: Go %s of %s, registry model %s" % (gm.group(1), reps, mm.group(1)))
+            if int(gm.group(3)) != reps * int(mm.group(2)):
+                d.append("supervised after a re-add during the removal: Go %s of %s connected, registry model %s supervisor" % (gm.group(3), reps, mm.group(2)))
+            if int(gm.group(6)) != reps:
+                d.append("the removal was seen waiting in Stop %s of %s times" % (gm.group(6), reps))
             return d
         if s.startswith("readd "):
             gm = re.match(r"managed=(\d+)/(\d+) connected=(\d+)/(\d+) maxconc=(\d+)$", g)
@@ -420,6 +437,17 @@ def run(tier, seed, replay=None):
                 return [("orphan-supervisor", "%s callers asked together for the same unmanaged device name (%s rounds): up to %s connections of that one device at a time, "
                          "%s new connection(s) and %s still open after RemoveDevice returned" % (s.split()[1], s.split()[2], m.group(1), m.group(2), m.group(3)))]
             return []
+        if s.startswith("readd2 "):
+            m = re.match(r"managed=(\d+)/(\d+) connected=(\d+)/(\d+) maxconc=(\d+) inside=(\d+)", g)
+            if m and (m.group(1) != m.group(2) or m.group(3) != m.group(4)):
+                api = {"add": "AddDevice", "update": "UpdateDevice", "cmd": "a read command"}.get(s.split()[1], s.split()[1])
+                return [("readded-device-not-supervised", "a device was added and connected; RemoveDevice began and waited in Stop for the reader's CloseConnectionResponse; "
+                         "meanwhile %s arrived for the same name and returned (%s rounds; the reader answered late on even rounds, never on odd ones): afterwards the "
+                         "driver managed the name %s times and a supervisor held a connection to the reader %s times — the device was (re-)added after the removal had "
+                         "begun, nobody removed it since, and nothing dials it" % (api, m.group(2), m.group(1), m.group(3)))]
+            # (two connections at a time are not judged here: when Stop's grace period runs out the client is Close()d, but its
+            # socket stays open until the reader says something — the removed instance's connection lingers beside the new one)
+            return []
         if s.startswith("readd "):
             m = re.match(r"managed=(\d+)/(\d+) connected=(\d+)/(\d+) maxconc=(\d+)", g)
             if m and (m.group(1) != m.group(2) or m.group(3) != m.group(4)):
@@ -483,7 +511,7 @@ def run(tier, seed, replay=None):
     suspects = []
     for s, g, o in zip(scripts, lines[1:], olines[1:]):
         evals += 1
-        if s.startswith(("race ", "readd ")):
+        if s.startswith(("race ", "readd ", "readd2 ")):
             dist[s.split()[0]] = dist.get(s.split()[0], 0) + 1
             nontriv.add(s)
         elif s.startswith("start "):
